@@ -84,8 +84,11 @@ SCENARIOS = {
     },
 }
 
-LEN = {'quick': {'S1': 5, 'S2': 5, 'S3': 5, 'S3b': 5, 'S4': 5, 'S5': 5, 'S7': 5},
-       'thorough': {'S1': 6, 'S2': 6, 'S3': 6, 'S3b': 6, 'S4': 6, 'S5': 6, 'S7': 6}}
+for _k in ('S1', 'S4', 'S7'):
+    SCENARIOS[_k + 'p'] = dict(SCENARIOS[_k], shared_param=True)
+
+LEN = {'quick': {'S1': 5, 'S2': 5, 'S3': 5, 'S3b': 5, 'S4': 5, 'S5': 5, 'S7': 5, 'S1p': 4, 'S4p': 4, 'S7p': 4},
+       'thorough': {'S1': 6, 'S2': 6, 'S3': 6, 'S3b': 6, 'S4': 6, 'S5': 6, 'S7': 6, 'S1p': 5, 'S4p': 5, 'S7p': 5}}
 DEV = {'quick': 1, 'thorough': 2}
 
 
@@ -172,7 +175,7 @@ class Built:
                 d = self.ref_packets[it['digest_of']]['sha256']
             elif it.get('digest') == 'wrong':
                 d = '00' * 32
-            self.interests[i] = {'comps': comps_of(it['name']), 'cbp': it['cbp'], 'digest': d,
+            self.interests[i] = {'comps': comps_of(it['name']), 'cbp': it['cbp'], 'digest': d, 'await_delay': it.get('await_delay', 0),
                                  'lifetime': it['lifetime'], 'vlat': it.get('vlat', 0),
                                  'verdict': it.get('verdict', 'accept'), 'name': it['name']}
 
@@ -198,6 +201,7 @@ class PitScenario:
         self.n_done = {}
         self.expressed_ok = 0
         self.fail_results = {}
+        self.shared_param = enc.InterestParam()
 
     def close(self):
         self.env.__exit__(None, None, None)
@@ -245,9 +249,19 @@ class PitScenario:
         out = None
         try:
             self.trace.append(('expressed', i, self.loop.us))
-            coro = self.fe.express(self.app, name, validator=self._validator(i), lifetime=it['lifetime'],
-                                   can_be_prefix=it['cbp'], nonce=1000 + i)
+            if self.b.spec.get('shared_param'):
+                # the application keeps one InterestParam object and adjusts it before every express()
+                p = self.shared_param
+                p.can_be_prefix, p.lifetime, p.nonce, p.must_be_fresh = it['cbp'], it['lifetime'], 1000 + i, False
+                coro = self.fe.express(self.app, name, validator=self._validator(i), interest_param=p)
+            else:
+                coro = self.fe.express(self.app, name, validator=self._validator(i), lifetime=it['lifetime'],
+                                       can_be_prefix=it['cbp'], nonce=1000 + i)
             self.expressed_ok += 1
+            if it.get('await_delay'):
+                # the caller does something else before it awaits the result
+                await asyncio.sleep(it['await_delay'] / 1000)
+                self.trace.append(('awaited', i, self.loop.us))
             res = await coro
             n, c = self.fe.result(res)
             out = 'data:' + self.label_of(n, c)
@@ -385,7 +399,7 @@ def cls(o):
 def plan(tier, seed):
     units = []
     nscripts = 0
-    for sname in SCENARIOS:
+    for sname in LEN[tier]:
         scripts = scripts_for(sname, LEN[tier][sname])
         nscripts += len(scripts) * 2
         chunk = 40 if tier == 'quick' else 12
@@ -401,7 +415,7 @@ def plan(tier, seed):
                 'order of same-instant timers. Non-trivial = at least two environment events that can complete the '
                 'same Interest, or two Interests touched by one packet. states = distinct fingerprints of '
                 '(outcomes so far, table sizes, pending timers) at quiescent points.',
-        'bounds': {'scenarios': list(SCENARIOS), 'script_len_after_prefix': LEN[tier], 'deviation_bound': DEV[tier],
+        'bounds': {'scenarios': list(LEN[tier]), 'script_len_after_prefix': LEN[tier], 'deviation_bound': DEV[tier],
                    'scripts': nscripts, 'front_ends': ['appv2.NDNApp.express', 'app.NDNApp.express_interest']},
         'assumptions': ['asyncio callbacks run FIFO; time advances only at tick events (virtual clock)',
                         'same-instant rule: candidates completing one Interest before the ready queue drains are all accepted',
